@@ -525,6 +525,7 @@ func runC04(a Args) tr.Summary {
 		w.Flush()
 		f.Close()
 		cmd := exec.Command(self, "c04child", "-extra", inFile, "-out", outFile)
+		cmd.SysProcAttr = &syscall.SysProcAttr{Pdeathsig: syscall.SIGKILL} // a child never outlives the driver
 		var stderr strings.Builder
 		cmd.Stderr = &stderr
 		cmd.Stdout = nil
